@@ -20,6 +20,7 @@ Decided clauses (shared with C12 R12.3):
   R15.3 bytes of the text are classified as values 0..255: in the decoders no sign-extended text byte reaches a
         classification helper or arithmetic ("only alphabet characters" over the full 8-bit character set; a
         sign-extended byte >= 0x80 makes the branch-free EQ() of the Base64 tables true for '+' and '/').
+  R15.8 every decoder function that walks over the encoded text (public decoder or helper handed the text) consults the ignore set.
   R15.7 both decoders hand back through *end the same position the end-pointer-less form compares with the length.
   R15.6 (E18, exact finite-domain evaluation of the branch-free table functions) reader's and writer's alphabets agree per variant: for
         every byte c, b64_char_to_byte(c) != 0xFF exactly when some digit x < 64 has b64_byte_to_char(x) == c, and then it returns x;
@@ -140,6 +141,7 @@ def run(ctx, chk):
     hex_pairs_rule(prog, chk)
     alphabet_agreement_rule(prog, chk)
     end_position_rule(prog, chk)
+    ignore_everywhere_rule(prog, chk)
 
 
 def _strip(t):
@@ -301,6 +303,66 @@ def _reaching(fn, slot):
             prev = [d for d, b in defs.items() if b == ins["b"] and d < i]
             out[i] = frozenset([max(prev)]) if prev else IN[ins["b"]]
     return out
+
+
+def ignore_everywhere_rule(prog, chk):
+    """R15.8 "only alphabet characters or characters from the caller's ignore set", at every position: every function of the
+    decoders that walks over the encoded text (a load through the text pointer inside a loop) - the public decoder and every
+    helper of the unit that is handed the text - consults the ignore set there (a call to strchr). A helper that classifies
+    characters without it (e.g. one that only looks for `=`) rejects well-formed text with an ignorable character at that place."""
+    from ..loopinv import natural_loops
+    n = 0
+    seen = set()
+    work = []
+    for name in ("sodium_base642bin", "sodium_hex2bin"):
+        f = prog.need(name, unit="sodium/codecs.c", rule="R15.8")
+        txt = [k for k, p in enumerate(f.params) if p["ty"] == "i8*" and k + 1 < len(f.params) and f.params[k + 1]["ty"] == "i64" and k > 0]
+        if not txt:
+            raise AnalysisBroken("R15.8: %s: text parameter not found" % name)
+        work.append((f, txt[0]))
+    while work:
+        f, t = work.pop()
+        if (f.key, t) in seen:
+            continue
+        seen.add((f.key, t))
+
+        def root(o, f=f):
+            for _ in range(32):
+                if o[0] == "a":
+                    return o[1]
+                if o[0] != "v":
+                    return None
+                d = f.insts[o[1]]
+                if d["op"] in ("getelementptr", "bitcast"):
+                    o = d["ops"][0]
+                else:
+                    return None
+            return None
+        inloop = set()
+        for body in natural_loops(f).values():
+            inloop |= body
+        walks = [i for i, ins in enumerate(f.insts) if ins["op"] == "load" and ins["b"] in inloop and root(ins["ops"][0]) == t]
+        consults = [i for i, ins in enumerate(f.insts) if ins["op"] == "call" and ins.get("callee") and ins["callee"][0] == "g"
+                    and ins["callee"][1] in ("strchr", "memchr")]
+        for i, ins in enumerate(f.insts):
+            c = ins.get("callee")
+            if ins["op"] != "call" or not c or c[0] != "g":
+                continue
+            g = prog.fn(c[1], f.unit)
+            if g is None or g.decl or g.unit != f.unit:
+                continue
+            for k, o in enumerate(ins.get("ops", [])):
+                if k < len(g.params) and g.params[k]["ty"] == "i8*" and root(o) == t:
+                    work.append((g, k))
+        if not walks:
+            continue
+        n += 1
+        ok = bool(consults)
+        chk.ob("R15.8", f, "%s walks over the encoded text (%s) and consults the ignore set there" % (f.sname, f.params[t]["name"]), ok,
+               loc=f.loc(walks[0]), detail="" if ok else "characters are read in a loop at %s and classified without a strchr() on the ignore "
+               "set: an ignorable character at this place of an otherwise well-formed text is rejected" % f.loc(walks[0]),
+               key="R15.8 %s ignore" % f.sname)
+    chk.floor("R15.8", "decoder functions that walk over the encoded text", n, 3)
 
 
 def end_position_rule(prog, chk):
